@@ -1488,3 +1488,86 @@ def mutate(c, sel, item):
             c.clear()
         else:
             raise IgnoreAttempt("sel")
+
+
+# --------------------------------------------------------------------------- C06: repr round trip
+import datetime as _datetime_module  # noqa: E402
+
+REPR_ENV = {"schema": schema, "optional": optional, "UUID": UUID, "datetime": _datetime_module}
+
+
+def roundtrip_problem(s):
+    t = represent(s)
+    if not isinstance(t, str) or t != represent(s) or t != repr(s):
+        return "representation is not deterministic / repr differs from represent"
+    try:
+        s2 = eval(t, dict(REPR_ENV))
+    except Exception as ex:
+        return "text does not evaluate: %s" % type(ex).__name__
+    if not isinstance(s2, Schema):
+        return "text does not evaluate to a schema"
+    if not (s2 == s) or not (s == s2) or (s2 != s):
+        return "rebuilt schema is not equal to the original"
+    if represent(s2) != t:
+        return "rebuilt schema prints differently"
+    return ""
+
+
+def opt_apply(s, method, arg):
+    return s if arg is Nil else getattr(s, method)(arg)
+
+
+def len_apply(s, lf, n, m):
+    if lf == 0:
+        return s
+    if lf == 1:
+        return s.len(n)
+    if lf == 2:
+        return s.len(n, ...)
+    if lf == 3:
+        return s.len(..., m)
+    if lf == 4:
+        return s.len(n, m)
+    raise IgnoreAttempt("lf")
+
+
+R_INT = (Nil, -1, 0, 2, 10 ** 20)
+R_FLOATV = (Nil, 1.5, -0.0, 1e-07, 1e22)
+R_FMIN = (Nil, -1.5, 0.0)
+R_FMAX = (Nil, 0.0, 2.5, 1e300)
+R_PREC = (Nil, 1, 15)
+R_STRV = (Nil, "", "a'", "\n", 'q"\\', "é ")
+R_ALPHA = (Nil, "", "ab'", "\\")
+R_SUB = (Nil, "", "a", "'")
+R_PAT = (Nil, r"\d+", "a'b", "^$")
+R_N = (0, 1, 2, 3)
+R_M = (0, 2, 3, 7)
+R_BYTES = (Nil, b"", b"\x00'", b"ab")
+# (1-tuples are left out: CrossHair 0.0.110 renders repr(('a',)) as "('a')" during symbolic execution)
+R_KEYS = ("a", "q'", 1, (1, 2), (1, "b'", None), None, True, "", 2.5)
+
+
+def r_list_inner(form):
+    e = schema.int.min(1)
+    return pick((schema.list, schema.list(e), schema.list(schema.list(schema.str("a'"))), schema.list([]),
+                 schema.list([e]), schema.list([e, ...]), schema.list([..., e]), schema.list([..., e, ...]),
+                 schema.list([schema.int(1), schema.str("a'")]), schema.list([schema.list([e, ...]), ...])), form)
+
+
+def r_value_schema(i):
+    return pick((schema.int, schema.str("a'").len(2), schema.list([schema.int.min(0), ...]).len(1, ...),
+                 schema.dict({"k": schema.none, ...: ...}), schema.any(schema.int, schema.none), schema.dict,
+                 schema.list([]).len(0), schema.any), i)
+
+
+def conc(i, hi):
+    """The concrete int equal to the symbolic index i (0..hi) - an explicit comparison chain, so the solver
+    enumerates the range and everything downstream runs on concrete data."""
+    for j in range(hi + 1):
+        if i == j:
+            return j
+    raise IgnoreAttempt("index out of range")
+
+
+def cb(b):
+    return True if b else False
